@@ -77,7 +77,7 @@ PROPS = {
              "for thread counts 1..16.",
              "models x list lengths {1,2,threads,threads+1,2*threads+1,5} x thread counts {1,2,3,4,8,max} x (solve, gradient, point "
              "evaluation, rays) + concurrent Python threads", props="props/C08.v", oracle_n=(30, 200)),
-    "C09": P(GV, VINTERP, "proof",
+    "C09": P(GV + ["ApiGen"], VINTERP, "proof",
              "Theorems over R on the generated apparent-velocity interpolators: fill outside / NaN, 0 at the source, vzero*dist "
              "in the source cell, node values, convex combination bounds, exactness on homogeneous times.",
              "traveltime grids constructed directly (exact homogeneous and perturbed), sources of all classes, query points of the "
@@ -89,7 +89,7 @@ PROPS = {
              "Monotone time, straightness and 'never raises when homogeneous' are examined on the implementation.",
              "models homogeneous/layered/gradient/smoothed log-normal x end points interior/node/face/edge/line/source/near-source x "
              "step sizes x max_step", props="props/C10.v", oracle_n=(50, 400), api_corr="api"),
-    "C11": P(GS, SOLVER2 + SOLVER3, "proof",
+    "C11": P(GS + ["ApiGen"], SOLVER2 + SOLVER3, "proof",
              "Theorems: the traveltime output of sweep/sweep2d/sweep3d does not depend on the gradient flag or the sign array (bit-level, "
              "source semantics), nor does the whole solver's; over R every gradient vector returned by fteik2d / fteik3d is the zero vector or has norm 1. Zero at the source, direction and the compiled build's "
              "bit-identity are examined on the implementation.", RULE_SOLVE, props="props/C11.v"),
